@@ -28,10 +28,21 @@ func TestMain(m *testing.M) {
 		"documented DAWGS dialect stays outside the generated fragment: type-mismatched comparisons, property + property read as concatenation (translate/expression.go isConcatenationOperation), a leading OPTIONAL MATCH read as MATCH (translate/match.go:42); NOT on a string predicate over a missing property is modelled as DAWGS documents it (refcypher NegatedStringPredicateCoalesceLookups)")
 }
 
+// genCase draws a (graph, query) pair. While findings are open a large part of the raw draws has an excluded shape;
+// up to four pairs are drawn and the first one outside every open exclusion is used (the last one otherwise, which
+// the oracle then counts as excluded), so that the evaluated share stays high without biasing anything else.
 func genCase(t *rapid.T) qcase.Case {
-	g := cy.Graph(t)
-	q := cy.Generate(t, genOptions())
-	return qcase.Case{Graph: g, Query: q.Text, Params: q.Params, Features: q.Features}
+	var c qcase.Case
+	for attempt := 0; attempt < 4; attempt++ {
+		g := cy.Graph(t)
+		q := cy.Generate(t, genOptions())
+		c = qcase.Case{Graph: g, Query: q.Text, Params: q.Params, Features: q.Features}
+		model, err := xlate.Parse(c.Query)
+		if err != nil || qcase.ExcludedBy(c, model, findingOpen) == "" {
+			break
+		}
+	}
+	return c
 }
 
 // refOptions: the one DAWGS behaviour that its code documents as an intentional dialect choice and mirrors in
@@ -153,5 +164,5 @@ func featureClasses(c qcase.Case) []string {
 }
 
 func TestC01Generated(t *testing.T) {
-	evid.Prop(t, checkName, evid.R.N(6000, 20000), genCase, oracle)
+	evid.Prop(t, checkName, evid.R.N(8000, 20000), genCase, oracle)
 }
